@@ -549,6 +549,7 @@ func termRules(c *Ctx) {
 	}
 	c.visitedThreading(sccs)
 	c.loopRules()
+	c.importProgress()
 }
 
 func (c *Ctx) actualForBest(e recEdge, m measure) ast.Expr {
@@ -760,5 +761,171 @@ func (c *Ctx) visitedThreading(sccs [][]*core.FuncInfo) {
 				return true
 			})
 		}
+	}
+}
+
+// importProgress (C09, TERM-IMPORT-PROGRESS): the import of remote references is a fixpoint — the pass reports "not
+// complete" as soon as it has met one remote $ref, and its caller runs it again until it reports completion. That
+// terminates only if a pass that returns without error has turned every remote $ref it met into a local one. For
+// every function the pass calls on such a $ref after having cleared the completion flag: each non-error return is
+// preceded, on the way from the function's entry, by an unconditional rewrite of the $ref's holders in the root
+// document (a call of a rewriter of the replace package, a loop of such calls over the holders, or a helper that
+// does so). A non-error return that skips the rewrite (e.g. "continue on error") leaves the remote $ref in place, the
+// pass reports "not complete" forever and Flatten hangs.
+func (c *Ctx) importProgress() {
+	flat := c.root("Flatten")
+	if flat == nil {
+		return
+	}
+	var isRewriteStmt func(fi *core.FuncInfo, st ast.Node, depth int) bool
+	isRewriteStmt = func(fi *core.FuncInfo, st ast.Node, depth int) bool {
+		info := c.info(fi)
+		found := false
+		ast.Inspect(st, func(n ast.Node) bool {
+			if _, isLit := n.(*ast.FuncLit); isLit {
+				return false
+			}
+			call, ok := n.(*ast.CallExpr)
+			if !ok || found {
+				return true
+			}
+			callee := c.P.CalleeAny(fi, call)
+			if callee == nil || callee.Pkg() == nil {
+				return true
+			}
+			if strings.HasSuffix(callee.Pkg().Path(), "/internal/flatten/replace") && len(call.Args) > 0 && core.IsSpecType(info.TypeOf(call.Args[0]), "Swagger") &&
+				(strings.HasPrefix(callee.Name(), "Update") || strings.HasPrefix(callee.Name(), "Rewrite")) {
+				found = true
+				return true
+			}
+			if g := c.P.Funcs[callee]; g != nil && depth < 2 && g.Decl != nil && g.Decl.Body != nil {
+				for _, s2 := range g.Decl.Body.List {
+					switch s2.(type) {
+					case *ast.IfStmt, *ast.SwitchStmt, *ast.TypeSwitchStmt:
+						continue // conditional
+					}
+					if isRewriteStmt(g, s2, depth+1) {
+						found = true
+					}
+				}
+			}
+			return true
+		})
+		return found
+	}
+	// the passes of a fixpoint: functions returning (bool, error) that are called inside a `for cond {}` / `for {}` loop
+	reach := core.SortedSet(c.P.Reachable(flat))
+	isPass := map[*types.Func]bool{}
+	for _, fi := range reach {
+		ast.Inspect(fi.Decl.Body, func(nd ast.Node) bool {
+			fs, ok := nd.(*ast.ForStmt)
+			if !ok || fs.Init != nil || fs.Post != nil {
+				return true
+			}
+			for _, call := range calls(fs.Body) {
+				if callee := c.P.StaticCallee(fi, call); callee != nil && c.P.Funcs[callee] != nil {
+					sig := callee.Type().(*types.Signature)
+					if sig.Results().Len() == 2 && core.IsBool(sig.Results().At(0).Type()) && core.IsErrorType(sig.Results().At(1).Type()) {
+						isPass[callee] = true
+					}
+				}
+			}
+			return true
+		})
+	}
+	// a holder record of one $ref: a struct with a spec.Ref member and a []string member (the keys holding it)
+	isRefHolders := func(t types.Type) bool {
+		st, ok := core.Deref(t).Underlying().(*types.Struct)
+		if !ok {
+			return false
+		}
+		hasRef, hasKeys := false, false
+		for i := 0; i < st.NumFields(); i++ {
+			ft := st.Field(i).Type()
+			if core.IsSpecType(ft, "Ref") && !core.IsPointer(ft) {
+				hasRef = true
+			}
+			if sl, ok := ft.Underlying().(*types.Slice); ok && core.IsString(sl.Elem()) {
+				hasKeys = true
+			}
+		}
+		return hasRef && hasKeys
+	}
+	n := 0
+	for _, fi := range reach {
+		if !isPass[fi.Obj] {
+			continue
+		}
+		func() {
+			for _, call := range calls(fi.Decl.Body) {
+				callee := c.P.StaticCallee(fi, call)
+				g := c.P.Funcs[callee]
+				if callee == nil || g == nil || g.Decl == nil || g.Decl.Body == nil {
+					continue
+				}
+				gsig := callee.Type().(*types.Signature)
+				takesElem := false
+				for i := 0; i < gsig.Params().Len(); i++ {
+					if isRefHolders(gsig.Params().At(i).Type()) {
+						takesElem = true
+					}
+				}
+				if !takesElem || gsig.Results().Len() == 0 || !core.IsErrorType(gsig.Results().At(gsig.Results().Len()-1).Type()) {
+					continue
+				}
+				n++
+				ginfo := c.info(g)
+				pm := c.parents(g)
+				var bad []string
+				ast.Inspect(g.Decl.Body, func(m ast.Node) bool {
+					if _, isLit := m.(*ast.FuncLit); isLit {
+						return false
+					}
+					ret, ok := m.(*ast.ReturnStmt)
+					if !ok || len(ret.Results) == 0 {
+						return true
+					}
+					if !core.IsNilExpr(ginfo, ret.Results[len(ret.Results)-1]) {
+						return true // an error is returned (or a variable that may hold one: treated as error exit)
+					}
+					// a rewrite statement earlier in an enclosing statement list
+					okRet := false
+					var node ast.Node = ret
+					for node != nil && !okRet {
+						parent := pm[node]
+						var list []ast.Stmt
+						switch b := parent.(type) {
+						case *ast.BlockStmt:
+							list = b.List
+						case *ast.CaseClause:
+							list = b.Body
+						}
+						for _, st := range list {
+							if st.Pos() >= node.Pos() {
+								break
+							}
+							switch st.(type) {
+							case *ast.IfStmt, *ast.SwitchStmt, *ast.TypeSwitchStmt:
+								continue
+							}
+							if isRewriteStmt(g, st, 0) {
+								okRet = true
+							}
+						}
+						node = parent
+					}
+					if !okRet {
+						bad = append(bad, c.P.Pos(ret.Pos()))
+					}
+					return true
+				})
+				c.S.Decide(len(bad) == 0, "C09", "TERM-IMPORT-PROGRESS", fi.QName()+"->"+callee.Name(), c.P.Pos(call.Pos()),
+					"every non-error return of "+callee.Name()+" comes after an unconditional rewrite of the holders of the remote $ref: a pass that reports 'not complete' has made progress",
+					callee.Name()+" can return without error and without having rewritten the holders of the remote $ref (return at "+strings.Join(bad, ", ")+"): the $ref stays remote, every later pass reports 'not complete' again and the import loop never ends")
+			}
+		}()
+	}
+	if n < 2 {
+		c.S.Undecided("C09", "TERM-IMPORT-PROGRESS", "floor", "-", fmt.Sprintf("only %d calls on a remote $ref after the completion flag is cleared found (confirmed by hand: 2)", n))
 	}
 }
